@@ -9,6 +9,7 @@ import (
 	"os/exec"
 	"path/filepath"
 	"runtime"
+	"runtime/pprof"
 	"sort"
 	"strconv"
 	"strings"
@@ -70,6 +71,15 @@ func main() {
 	}
 	switch os.Args[1] {
 	case "check":
+		if pf := os.Getenv("SYMGO_CPUPROFILE"); pf != "" {
+			if f, err := os.Create(pf); err == nil {
+				pprof.StartCPUProfile(f)
+				code := cmdCheck(os.Args[2:])
+				pprof.StopCPUProfile()
+				f.Close()
+				os.Exit(code)
+			}
+		}
 		os.Exit(cmdCheck(os.Args[2:]))
 	case "replay":
 		os.Exit(cmdReplay(os.Args[2:]))
